@@ -8,7 +8,7 @@ HERE=$(cd "$(dirname "$0")/.." && pwd)
 export GOFLAGS=-mod=mod GOPROXY=off GOSUMDB=off GOTOOLCHAIN=local GOWORK=off
 REPO=${VERIF_REPO:-/repo}
 sel=${1:-all}; tests=0; [ "${2:-}" = "--tests" ] && tests=1
-BIN="$HERE/bin/ucanlint"
+BIN="${UCANLINT:-$HERE/bin/ucanlint}"
 [ -x "$BIN" ] || (cd "$HERE/lint" && go build -o "$BIN" ./cmd/ucanlint) || exit 2
 BASE=$(mktemp -d /tmp/ucanself.XXXXXX)
 trap 'rm -rf "$BASE"' EXIT
